@@ -306,6 +306,8 @@ package ugo
 //@ results err
 //@ requires vmCallOK(vm, cfunc, numArgs) && (flags == 0 || (flags == 1 && numArgs >= 1))
 //@ ensures[reuse]  err == nil && vm.curFrame == old(vm.curFrame) ==> vm.curFrame.errHandlers == nil && vm.ip == -1
+//@ ensures[reusesp] err == nil && vm.curFrame == old(vm.curFrame) ==> vm.sp == old(vm.sp)-numArgs-1 && vm.frameIndex == old(vm.frameIndex)
+//@ ensures[reuseclr] err == nil && vm.curFrame == old(vm.curFrame) ==> forall k int :: vm.sp <= k && k <= old(vm.sp) ==> vm.stack[k] == nil
 //@ ensures[fresh]  err == nil && vm.curFrame != old(vm.curFrame) ==> vm.curFrame.errHandlers == nil && vm.curFrame.fn == cfunc && vm.curFrame.basePointer == old(vm.sp)-numArgs && vm.ip == -1 && vm.sp == old(vm.sp)-numArgs+cfunc.NumLocals
 //@ ensures[error]  err != nil ==> vm.curFrame == old(vm.curFrame) && vm.ip == old(vm.ip)
 //@ ensures[bind]     err == nil && flags == 0 ==> forall i int :: 0 <= i && i < specFixedParams(cfunc) ==> vm.stack[vm.curFrame.basePointer+i] == old(verifrt.Snap(vm.stack[:]))[old(vm.sp)-numArgs+i]
@@ -318,9 +320,10 @@ package ugo
 //@ loop 0 invariant flags == 0 ==> forall k int :: 0 <= k && k < specFixedParams(cfunc) ==> vm.stack[basePointer+k] == old(verifrt.Snap(vm.stack[:]))[basePointer+k]
 //@ loop 0 invariant flags == 0 && cfunc.Variadic && numParams >= 1 ==> specVarArgsIn(vm.stack[basePointer+numParams-1], old(verifrt.Snap(vm.stack[:]))[basePointer+numParams-1:old(vm.sp)], vm.stack[:])
 //@ loop 0 invariant forall k int :: numParams <= k && k < i ==> vm.stack[basePointer+k] == Undefined
-//@ loop 1 invariant i <= vm.sp && vm.sp == old(vm.sp) && vm.curFrame == old(vm.curFrame) && curBp+numLocals <= newSp
+//@ loop 1 invariant i <= vm.sp && vm.sp == old(vm.sp) && vm.curFrame == old(vm.curFrame) && curBp+numLocals <= newSp && newSp == old(vm.sp)-numArgs-1 && newSp-1 <= i && vm.frameIndex == old(vm.frameIndex)
+//@ loop 1 invariant forall k int :: i < k && k <= old(vm.sp) ==> vm.stack[k] == nil
 //@ loop 1 invariant flags == 0 ==> forall k int :: 0 <= k && k < specFixedParams(cfunc) ==> vm.stack[curBp+k] == old(verifrt.Snap(vm.stack[:]))[basePointer+k]
-//@ loop 1 invariant flags == 0 && cfunc.Variadic && numParams >= 1 ==> specVarArgsIn(vm.stack[curBp+numParams-1], old(verifrt.Snap(vm.stack[:]))[basePointer+numParams-1:old(vm.sp)], vm.stack[:])
+//@ loop 1 invariant[varargs] flags == 0 && cfunc.Variadic && numParams >= 1 ==> specVarArgsIn(vm.stack[curBp+numParams-1], old(verifrt.Snap(vm.stack[:]))[basePointer+numParams-1:old(vm.sp)], vm.stack[:])
 //@ loop 1 invariant forall k int :: numParams <= k && k < numLocals ==> vm.stack[curBp+k] == Undefined
 //@ property C03 C14 C02
 
